@@ -137,3 +137,31 @@ func H_C15_qualification_more(s any) {
 	}
 	vpCover("reached")
 }
+
+// C08: Find by key on a JSON-backed tree, for keys that are not strings
+func H_C08_json_source_keys() {
+	m, err := parser.LoadModuleFromString(nil, `module m { namespace "urn:m"; prefix m; container top {
+		list li { key k; leaf k { type int32; } leaf v { type string; } } list lb { key k; leaf k { type boolean; } leaf v { type string; } }
+		list ls { key k; leaf k { type string; } leaf v { type string; } } list l2 { key "a b"; leaf a { type string; } leaf b { type uint8; } leaf v { type string; } } } }`)
+	vpAssert(err == nil, "module loads")
+	doc := map[string]interface{}{"top": map[string]interface{}{
+		"li": []interface{}{map[string]interface{}{"k": float64(7), "v": "seven"}, map[string]interface{}{"k": float64(-1), "v": "minus"}},
+		"lb": []interface{}{map[string]interface{}{"k": true, "v": "t"}},
+		"ls": []interface{}{map[string]interface{}{"k": "7", "v": "str"}},
+		"l2": []interface{}{map[string]interface{}{"a": "x", "b": float64(3), "v": "two"}},
+	}}
+	paths := []string{"top/li=7", "top/li=-1", "top/li=8", "top/lb=true", "top/lb=false", "top/ls=7", "top/l2=x,3", "top/l2=x,4"}
+	want := []string{"seven", "minus", "", "t", "", "str", "two", ""}
+	i := vpChoose(len(paths))
+	rdr, rerr := ReadJSONValues(doc)
+	vpAssert(rerr == nil, "reader")
+	var sel *node.Selection
+	p := vpCatch(func() { sel, err = node.NewBrowser(m, rdr).Root().Find(paths[i]) })
+	vpAssert(!p && err == nil, "Find returns")
+	vpAssertK("C08-json-non-string-keys", true, (sel != nil) == (want[i] != ""), "Find("+paths[i]+") on a JSON-backed tree finds the entry exactly when it is there")
+	if sel != nil && want[i] != "" {
+		v, gerr := sel.GetValue("v")
+		vpAssert(gerr == nil && v != nil && v.String() == want[i], "and it is that entry")
+	}
+	vpCover("reached")
+}
